@@ -117,6 +117,17 @@ def set_decimal_config() -> None:
             disable_value=DISABLE_VALUE,
         )
 
+    if width < scale:
+        # DECIMAL(width, scale) needs width >= scale
+        raise RunTimeError(
+            code="0-4-1-1",
+            env_var=DECIMAL_WIDTH_ENV_VAR,
+            value=width,
+            min_value=scale,
+            max_value=MAX_DECIMAL_WIDTH,
+            disable_value=DISABLE_VALUE,
+        )
+
     DECIMAL_WIDTH = width
     DECIMAL_SCALE = scale
 
